@@ -256,6 +256,40 @@ TYPES = ["int", "float", "bool", "text", "date", "time", "timestamp", "[int]", "
 HOSTILE_TYPES = ["{x = *}", "{a = int, ..float}", "{..my_type}", "{`b c` = int}", "`my ty`", "m.`let`"]
 
 
+def gen_type(rng, d, field=False):
+    """source text of a random type expression (parser/types.rs): primitives, identifiers, func types (also nested, in
+    parameter and return position), tuples with named / unnamed / `*` fields and a trailing wildcard, arrays"""
+    k = rng.random()
+    if d <= 0 or k < 0.3:
+        return rng.choice(["int", "float", "bool", "text", "date", "time", "timestamp", "my_type", "m.ty", "`a b`", "m.`let`.x", "func", "[]", "{}"])
+    if k < 0.5:
+        n = rng.randint(0, 3)
+        ps = [gen_type(rng, d - 1) for _ in range(n)]
+        # a parameter may not end in a bare `func` (there is no way to write that): wrap it into an array type
+        ps = [("[%s]" % x) if x.endswith("func") else x for x in ps]
+        return "func %s-> %s" % ("".join(x + " " for x in ps), gen_type(rng, d - 1))
+    if k < 0.65:
+        return "[%s]" % gen_type(rng, d - 1)
+    fields = []
+    for _ in range(rng.randint(0, 4)):
+        j = rng.random()
+        nm = rng.choice(["a", "b", "`c d`", "`let`", "x1", "`*`"])
+        if j < 0.45:
+            fields.append("%s = %s" % (nm, gen_type(rng, d - 1)))
+        elif j < 0.7:
+            fields.append(gen_type(rng, d - 1))
+        elif j < 0.85:
+            fields.append("%s = *" % nm)
+        else:
+            fields.append("*")
+    j = rng.random()
+    if j < 0.2:
+        fields.append("..")
+    elif j < 0.4:
+        fields.append(".." + gen_type(rng, d - 1))
+    return "{" + ", ".join(fields) + "}"
+
+
 def gen_func(rng, d, go, clean=False):
     params = [(rng.choice(["x", "y", "z", "p_1", "`a b`", "`let`", "`true`", "`*`"]), rng.choice(TYPES + HOSTILE_TYPES) if rng.random() < 0.3 else None) for _ in range(rng.randint(0, 2))]
     # default values: atoms, and (since commit 95d15ad repaired them) calls, lambdas and aliased expressions
